@@ -134,8 +134,16 @@ def str_contracts(pairs=True):
         for combo in combos:
             if raw and combo not in (("char",), ("simple", "char"), ("x", "simple")):
                 continue      # raw: escapes are not interpreted; a few representative bodies
-            if not raw and len(combo) == 2 and (prefix, q) not in (("", '"'), ("", "'''")):
-                continue      # pairs under one short and one long style; single atoms under every style
+            if not raw and len(combo) == 2:
+                # pairs: all under the short double-quoted style, the costly U kind paired with char and x only (both orders); a representative subset under one long style; single atoms under every style
+                if (prefix, q) == ("", '"'):
+                    if "U" in combo and combo not in (("U", "char"), ("char", "U"), ("U", "x"), ("x", "U")):
+                        continue
+                elif (prefix, q) == ("", "'''"):
+                    if "U" in combo or combo[0] == combo[1]:
+                        continue
+                else:
+                    continue
             names = [f"m{i}" for i in range(len(combo))]
             args = [(n, AtomDom(k, exclude=(q if len(q) == 1 else None))) for n, k in zip(names, combo)]
 
